@@ -196,6 +196,8 @@ func writes(e expr) []program {
 			add("through &x", "ptr := &"+L+"\n*ptr = 9", false)
 			add("&x passed to /p/ helper", "ptypes.WInt(&"+L+")", false)
 			add("&x passed to attacker func", "setInt(&"+L+")", false)
+			add("&x passed to /p/ method on /p/-global receiver", "ptypes.G.WInt(&"+L+")", false)
+			add("&x passed to /p/ method on attacker-made receiver", "w := &ptypes.W{}\nw.WInt(&"+L+")", false)
 		}
 	case tD:
 		if e.assign {
@@ -236,6 +238,8 @@ func writes(e expr) []program {
 		add("passed to /p/ helper (index write)", "ptypes.WSl("+L+")", false)
 		add("passed to /p/ helper (append)", "ptypes.WApp("+L+")", false)
 		add("passed to attacker func", "setSl("+L+")", false)
+		add("passed to /p/ method on /p/-global receiver", "ptypes.G.WSl("+L+")", false)
+		add("passed to /p/ method on attacker-made receiver", "w := &ptypes.W{}\nw.WSl("+L+")", false)
 	case tSlS:
 		if e.assign {
 			add("= nil", L+" = nil", false)
@@ -251,6 +255,8 @@ func writes(e expr) []program {
 		add("write inside range", "for k := range "+L+" {\n\t"+L+"[k] = 9\n}", false)
 		add("passed to /p/ helper (write)", "ptypes.WMap("+L+")", false)
 		add("passed to /p/ helper (delete)", "ptypes.WDel("+L+")", false)
+		add("passed to /p/ method on /p/-global receiver", "ptypes.G.WMap("+L+")", false)
+		add("passed to /p/ method on attacker-made receiver", "w := &ptypes.W{}\nw.WMap("+L+")", false)
 	case tMapS:
 		if e.assign {
 			add("= nil", L+" = nil", false)
